@@ -162,7 +162,12 @@ pub fn run(ctx: &Ctx) -> Rep {
     let unit_stride = if ctx.smoke() { 331 } else { 1 };
     let rate7 = ctx.pick(1, 4, 1);
 
+    let leg_div: u64 = if ctx.leg == "checked" && !ctx.thorough() && !ctx.smoke() { 4 } else { 1 };
+    let rate7 = rate7 * leg_div;
     let s6 = par_subsets::<6, X, _, _>(ctx, unit_stride, mk, |st, c, _| {
+        if !selected(c, seed, 0xC4EC, leg_div) {
+            return;
+        }
         st.rep.distinct += 1;
         // half of the hands in a seeded slot order, half canonical
         if selected(c, seed, 0x96, 2) {
@@ -252,7 +257,7 @@ pub fn run(ctx: &Ctx) -> Rep {
     rep.add("sub_hands_equal(the extra card did not matter)", acc.unchanged);
     rep.add("sub_hands_in_a_weaker_category", acc.cat_improved);
     if !ctx.smoke() {
-        rep.floor("six_card_subsets", n6, 20_358_520);
+        rep.floor("six_card_subsets", n6, if leg_div == 1 { 20_358_520 } else { 20_358_520 / leg_div / 2 });
         rep.floor("seven_card_subsets", n7, if rate7 == 1 { 133_784_560 } else { 133_784_560 / rate7 / 2 });
         rep.floor("hands with a unique minimising sub-hand", acc.unique_min, 1000);
         rep.floor("sub-hands strictly weaker", acc.improved, 1000);
